@@ -466,6 +466,59 @@ func exec(line string, panicMsg *string) (reply string) {
 			return "bad-op"
 		}
 		return showList(items(sets[0].RemoveEmptyBlob()))
+	case "sx":
+		// a program over a register file of sets; later instructions run on sets *derived* by the
+		// real code (sub-slices, aliases, whatever its fast paths return), not on rebuilt copies
+		sep := -1
+		for i, a := range args {
+			if a == "::" {
+				sep = i
+			}
+		}
+		if sep < 0 {
+			return "bad-op"
+		}
+		regs, _, ok := parseSets(args[:sep])
+		if !ok {
+			return "bad-op"
+		}
+		for _, ins := range splitOn(args[sep+1:], ";") {
+			if len(ins) == 0 {
+				continue
+			}
+			idx := make([]int, 0, len(ins)-1)
+			for _, w := range ins[1:] {
+				i, err := strconv.Atoi(w)
+				if err != nil || i < 0 || i >= len(regs) {
+					return "bad-op"
+				}
+				idx = append(idx, i)
+			}
+			switch {
+			case ins[0] == "same" && len(idx) == 1:
+				regs = append(regs, regs[idx[0]])
+			case ins[0] == "part" && len(idx) == 1:
+				regs = append(regs, regs[idx[0]].PartitionByInstanceName()...)
+			case ins[0] == "rme" && len(idx) == 1:
+				regs = append(regs, regs[idx[0]].RemoveEmptyBlob())
+			case ins[0] == "dai" && len(idx) == 2:
+				a, both, b := digest.GetDifferenceAndIntersection(regs[idx[0]], regs[idx[1]])
+				regs = append(regs, a, both, b)
+			case ins[0] == "uni":
+				var in []digest.Set
+				for _, i := range idx {
+					in = append(in, regs[i])
+				}
+				regs = append(regs, digest.GetUnion(in))
+			default:
+				return "bad-op"
+			}
+		}
+		out := make([]string, len(regs))
+		for i, r := range regs {
+			out[i] = showList(items(r))
+		}
+		return strings.Join(out, " | ")
 	case "part":
 		sets, _, ok := parseSets(args)
 		if !ok || len(sets) != 1 {
@@ -656,6 +709,107 @@ func splitBars(ws []string) [][]string {
 		}
 	}
 	return res
+}
+
+func splitOn(ws []string, sep string) [][]string {
+	res := [][]string{nil}
+	for _, w := range ws {
+		if w == sep {
+			res = append(res, nil)
+		} else {
+			res[len(res)-1] = append(res[len(res)-1], w)
+		}
+	}
+	return res
+}
+
+// refSetProgram is the reference meaning of an sx line: the same program on
+// plain sorted string lists, every operation defined by set membership.
+func refSetProgram(args []string) ([][]string, bool) {
+	sep := -1
+	for i, a := range args {
+		if a == "::" {
+			sep = i
+		}
+	}
+	if sep < 0 {
+		return nil, false
+	}
+	var regs [][]string
+	for _, b := range splitBars(args[:sep]) {
+		regs = append(regs, listOf(b))
+	}
+	member := func(l []string) map[string]bool {
+		m := map[string]bool{}
+		for _, x := range l {
+			m[x] = true
+		}
+		return m
+	}
+	for _, ins := range splitOn(args[sep+1:], ";") {
+		if len(ins) == 0 {
+			continue
+		}
+		var idx []int
+		for _, w := range ins[1:] {
+			i, err := strconv.Atoi(w)
+			if err != nil || i < 0 || i >= len(regs) {
+				return nil, false
+			}
+			idx = append(idx, i)
+		}
+		switch {
+		case ins[0] == "same" && len(idx) == 1:
+			regs = append(regs, regs[idx[0]])
+		case ins[0] == "part" && len(idx) == 1:
+			var order []string
+			groups := map[string][]string{}
+			for _, x := range regs[idx[0]] {
+				d, _ := wellFormed(x)
+				if _, ok := groups[d.inst]; !ok {
+					order = append(order, d.inst)
+				}
+				groups[d.inst] = append(groups[d.inst], x)
+			}
+			for _, in := range order {
+				regs = append(regs, groups[in])
+			}
+		case ins[0] == "rme" && len(idx) == 1:
+			var out []string
+			for _, x := range regs[idx[0]] {
+				if d, ok := wellFormed(x); ok && d.size != 0 {
+					out = append(out, x)
+				}
+			}
+			regs = append(regs, out)
+		case ins[0] == "dai" && len(idx) == 2:
+			a, b := regs[idx[0]], regs[idx[1]]
+			inA, inB := member(a), member(b)
+			var onlyA, both, onlyB []string
+			for _, x := range a {
+				if inB[x] {
+					both = append(both, x)
+				} else {
+					onlyA = append(onlyA, x)
+				}
+			}
+			for _, x := range b {
+				if !inA[x] {
+					onlyB = append(onlyB, x)
+				}
+			}
+			regs = append(regs, onlyA, both, onlyB)
+		case ins[0] == "uni":
+			var all []string
+			for _, i := range idx {
+				all = append(all, regs[i]...)
+			}
+			regs = append(regs, sortedUnique(all))
+		default:
+			return nil, false
+		}
+	}
+	return regs, true
 }
 
 func eqList(a, b []string) bool {
@@ -908,6 +1062,21 @@ func oracleLine(line, reply, panicMsg string) *violation {
 		}
 		if !eqList(listOf(r), want) {
 			return &violation{"RemoveEmptyBlob is not the subset of non-empty blobs in sorted order", fmt.Sprintf("%q -> %q", line, reply)}
+		}
+	case "sx":
+		want, ok := refSetProgram(args)
+		if !ok {
+			return nil
+		}
+		got := splitBars(r)
+		if len(got) != len(want) {
+			return &violation{"set operations on derived sets: wrong number of results", fmt.Sprintf("%q -> %q (want %d sets)", line, reply, len(want))}
+		}
+		for i := range want {
+			if !eqList(listOf(got[i]), want[i]) {
+				return &violation{"set operations on derived sets (sub-slices, aliases, earlier results) do not compute the mathematical sets",
+					fmt.Sprintf("%q: register %d is %q, want %q", line, i, listOf(got[i]), want[i])}
+			}
 		}
 	case "part":
 		var order []string
@@ -1369,6 +1538,9 @@ func genSetCase(r *hx.Rand) []string {
 	var uni []string
 	insts := []string{"", "a", "a/b", "b", "a-b", "a/b/c", "0"}
 	hashes := map[int][]string{}
+	// in half of the families the hash decides the instance name: digests of one instance name are
+	// then contiguous in set order and partitions stay sub-slices of the partitioned set
+	contiguous := r.Chance(1, 2)
 	for i := 0; i < nU; i++ {
 		e := allFns[r.Intn(len(allFns))]
 		if r.Chance(1, 2) {
@@ -1378,8 +1550,13 @@ func genSetCase(r *hx.Rand) []string {
 		if len(hashes[hl]) == 0 || r.Chance(1, 3) {
 			hashes[hl] = append(hashes[hl], genHash(r, hl))
 		}
-		h := hashes[hl][r.Intn(len(hashes[hl]))]
-		uni = append(uni, dwords{insts[r.Intn(r.Range(1, len(insts)))], e, h, int64(r.PickInt(0, 0, 1, 5, 10, 123))}.packed())
+		hi := r.Intn(len(hashes[hl]))
+		h := hashes[hl][hi]
+		in := insts[r.Intn(r.Range(1, len(insts)))]
+		if contiguous {
+			in = insts[(hi+hl)%len(insts)]
+		}
+		uni = append(uni, dwords{in, e, h, int64(r.PickInt(0, 0, 1, 5, 10, 123))}.packed())
 	}
 	pick := func() []string {
 		var l []string
@@ -1420,7 +1597,72 @@ func genSetCase(r *hx.Rand) []string {
 	if k == 0 {
 		s = append(s, "rmempty", "part", "build", "dai |")
 	}
+	// programs over derived sets: the arguments of later operations are what the real code returned
+	// earlier (partitions are sub-slices of their argument, RemoveEmptyBlob / GetUnion may return
+	// their argument, ...), never rebuilt copies
+	for n, m := 0, r.Range(1, 3); n < m; n++ {
+		s = append(s, genSetProgram(r, ws))
+	}
 	return s
+}
+
+func genSetProgram(r *hx.Rand, baseWords []string) string {
+	base := strings.Join(baseWords, " | ")
+	if len(baseWords) == 0 {
+		base = ""
+	}
+	var prog []string
+	line := func() []string {
+		return strings.Fields("sx " + base + " :: " + strings.Join(prog, " ; "))
+	}
+	nregs := func() int {
+		regs, ok := refSetProgram(line()[1:])
+		if !ok {
+			panic("harness: generated a malformed set program")
+		}
+		return len(regs)
+	}
+	for i, n := 0, r.Range(2, 7); i < n; i++ {
+		before := nregs()
+		src := r.Intn(before)
+		if r.Chance(1, 2) && before > 0 {
+			src = r.Intn(min(before, max(1, len(baseWords)))) // prefer a base set
+		}
+		switch r.Intn(8) {
+		case 0, 1, 2: // derive, then combine the original with what was derived from it
+			kind := []string{"part", "rme", "same"}[r.Intn(3)]
+			prog = append(prog, fmt.Sprintf("%s %d", kind, src))
+			after := nregs()
+			for j := before; j < after; j++ {
+				switch r.Intn(4) {
+				case 0:
+					prog = append(prog, fmt.Sprintf("dai %d %d", src, j))
+				case 1:
+					prog = append(prog, fmt.Sprintf("dai %d %d", j, src))
+				case 2:
+					prog = append(prog, fmt.Sprintf("uni %d %d", src, j))
+				}
+			}
+			if after-before >= 2 && r.Chance(1, 2) {
+				prog = append(prog, fmt.Sprintf("dai %d %d", before, before+1), fmt.Sprintf("uni %d %d %d", before+1, before, src))
+			}
+		case 3:
+			prog = append(prog, fmt.Sprintf("dai %d %d", src, r.Intn(before)))
+		case 4:
+			prog = append(prog, fmt.Sprintf("dai %d %d", src, src))
+		case 5:
+			var is []string
+			for j, m := 0, r.Intn(4); j < m; j++ {
+				is = append(is, strconv.Itoa(r.Intn(before)))
+			}
+			prog = append(prog, strings.TrimSpace("uni "+strings.Join(is, " ")))
+		case 6:
+			prog = append(prog, fmt.Sprintf("part %d", src))
+		case 7:
+			prog = append(prog, fmt.Sprintf("rme %d", src))
+		}
+	}
+	return strings.Join(line(), " ")
 }
 
 func genPathJoinCase(r *hx.Rand) []string {
@@ -1450,7 +1692,8 @@ func TestC20(t *testing.T) {
 	run.SetRule("valid stream: digests over all eight functions, boundary sizes, instance names of 0..6 components (1 in 5 with a '.'/'..' component), " +
 		"compressors 0..3 (+ unsupported), each taken through constructor, accessors, ByteStream read/write path, REv2 message, compact binary, keys, ancestors, plus variants sharing part of the tuple; " +
 		"malformed stream (differential fuzzing under recover, the model predicting the error class): byte- and field-level mutations of valid resource names, arbitrary bytes, " +
-		"bad constructor arguments, bad instance names, truncated/overflowing compact binary; set families over small overlapping universes with duplicates and mixed instance names; " +
+		"bad constructor arguments, bad instance names, truncated/overflowing compact binary; set families over small overlapping universes with duplicates and mixed instance names, "+
+		"plus programs of set operations whose arguments are sets derived by the real code (partitions = sub-slices, a set and itself, RemoveEmptyBlob/GetUnion results, earlier differences); " +
 		"path.Join differential; exhaustive small scopes of instance names. A case is non-trivial when the real code executed >= 2 lines and at least one was accepted and one rejected or it has >= 5 lines; distinct by script hash")
 
 	otherFindings := 0
@@ -1649,6 +1892,32 @@ func exhaustive(run *hx.Run, handle func(name, stream string, script []string)) 
 					count++
 				}
 			}
+		}
+	}
+	// set operations on derived sets: a set with its own partitions, itself, its non-empty part
+	{
+		// instance names are contiguous in set order here (the hash decides), so that the partitions
+		// are sub-slices of the set itself and never get re-allocated by an append
+		mkp := func(in string, hc byte, z int64) string {
+			return dwords{in, 3, strings.Repeat(string([]byte{hc}), 32), z}.packed()
+		}
+		mk := func(in string, z int64) string { return hs(mkp(in, map[string]byte{"a": '0', "b": '1', "c": '2'}[in], z)) }
+		var members []string
+		for _, p := range sortedUnique([]string{mkp("a", '0', 0), mkp("a", '0', 1), mkp("a", '0', 2), mkp("b", '1', 0), mkp("b", '1', 3), mkp("c", '2', 4)}) {
+			members = append(members, hs(p))
+		}
+		all := strings.Join(members, " ")
+		for _, prog := range []string{
+			"part 0 ; dai 0 1 ; dai 1 0 ; dai 0 2 ; dai 2 0 ; dai 0 3 ; dai 1 2 ; uni 1 2 3 ; uni 3 2 1 0",
+			"same 0 ; dai 0 1 ; dai 0 0 ; uni 0 1 ; uni 0",
+			"rme 0 ; dai 0 1 ; dai 1 0 ; part 1 ; dai 1 2 ; dai 0 2 ; rme 1 ; dai 1 5",
+			"part 0 ; rme 1 ; dai 1 4 ; dai 0 4 ; uni 4 1 ; part 1 ; dai 5 1 ; dai 0 5",
+			"dai 0 0 ; dai 0 2 ; dai 2 0 ; uni 1 2 3 ; part 2 ; dai 2 5",
+			"uni 0 ; dai 0 1 ; uni ; uni 1 1 ; dai 0 3",
+		} {
+			handle(fmt.Sprintf("exh/derived/%d", count), "exhaustive", []string{"sx " + all + " :: " + prog,
+				"sx " + all + " | " + mk("a", 0) + " " + mk("a", 1) + " :: dai 0 1 ; dai 1 0 ; " + prog})
+			count++
 		}
 	}
 	alpha := []byte{'a', '/', '.'}
